@@ -207,11 +207,16 @@ package engine
 //@   len(key) == len(args) && (forall i int :: 0 <= i && i < len(args) ==> args[i] is ast.Variable && s.Get(args[i] as ast.Variable) is ast.Constant && key[i] == (s.Get(args[i] as ast.Variable) as ast.Constant)) ==> groupKeyString(key) == keyStrOf(args, s)
 //@   auto
 
+// nKey: how many of the first n rows have key string h. A group holds strictly increasing positions of rows with its
+// key string, as many as there are such rows: so it holds exactly those rows (counting argument, not mechanised).
+//@ spec func nKey(args []ast.BaseTerm, input []ast.ConstSubstList, n int, h string) int = n <= 0 ? 0 : nKey(args, input, n - 1, h) + (keyStrOf(args, input[n-1]) == h ? 1 : 0)
+
 //@ func evalDo(head, transform, input, inputFacts, emit)
 //@   opt nosafety
 //@   loop 1 invariant keyToGroup != nil
 //@   loop 1 invariant forall h string :: h in keyToGroup ==> groupOK(keyToGroup[h], input, rangeindex + 1)
-//@   loop 1 invariant forall r int :: 0 <= r && r < rangeindex + 1 ==> keyStrOf(doStmt.Fn.Args, input[r]) in keyToGroup && (exists j int :: 0 <= j && j < len(keyToGroup[keyStrOf(doStmt.Fn.Args, input[r])].indices) && keyToGroup[keyStrOf(doStmt.Fn.Args, input[r])].indices[j] == r)
+//@   loop 1 invariant forall h string, j int :: h in keyToGroup && 0 <= j && j < len(keyToGroup[h].indices) ==> keyStrOf(doStmt.Fn.Args, input[keyToGroup[h].indices[j]]) == h
+//@   loop 1 invariant forall h string :: (h in keyToGroup ==> len(keyToGroup[h].indices) == nKey(doStmt.Fn.Args, input, rangeindex + 1, h)) && (h !in keyToGroup ==> nKey(doStmt.Fn.Args, input, rangeindex + 1, h) == 0)
 //@   loop 2 invariant len(key) == len(doStmt.Fn.Args) && keyLen == len(doStmt.Fn.Args)
 //@   loop 2 invariant forall i int :: 0 <= i && i < rangeindex#2 + 1 ==> doStmt.Fn.Args[i] is ast.Variable && subst.Get(doStmt.Fn.Args[i] as ast.Variable) is ast.Constant && key[i] == (subst.Get(doStmt.Fn.Args[i] as ast.Variable) as ast.Constant)
 //@   guard return in loop 3: err != nil
